@@ -5,6 +5,7 @@ import ast
 import re
 
 from vk import astx, elect, facts, effects, callgraph
+from vk.report import shape_rule
 from vk.algebra import Normalizer, bool_key, simplify, atoms_of
 from vk.loader import AnalysisError
 
@@ -92,6 +93,7 @@ def _tie_calls(prog):
     return out
 
 
+@shape_rule
 def r2_only_in_tie(ctx):
     prog = ctx.prog
     tb = prog.find_func("tiebreak_set")
@@ -243,6 +245,7 @@ def _caller_records(prog, helper, idx) -> bool:
     return False
 
 
+@shape_rule
 def r4_fallback(ctx):
     prog = ctx.prog
     f = prog.find_func("tiebreak_set")
@@ -320,6 +323,7 @@ def r4_fallback(ctx):
               "a set broken by tiebroken_ranking is not entered in the returned dictionary")
 
 
+@shape_rule
 def r5_groups_obey(ctx):
     prog = ctx.prog
     f = prog.find_func("elect_cands_from_set_ranking")
